@@ -452,7 +452,9 @@ func (w *world) signaturesFor(impl gmsl.IRoomVersion, evJSON []byte, s, state st
 			}
 		}
 		if accomplice == "" {
-			panic("harness: a vouched signature needs a second required server")
+			// no other required server exists (e.g. the received form of a v8 restricted join, where redaction
+			// dropped the authorising server): nobody vouches, the key stays unknown to everybody - a fault all the same
+			return []sigEntry{good("ed25519:kx", forger)}
 		}
 		if w.forged == nil {
 			w.forged = map[string]gmsl.ServerKeys{}
